@@ -69,8 +69,11 @@ SlackOf(lp, x, i) == IF lp.sense[i] \in {"G", "R"} THEN RSub(Act(lp, x, i), lp.r
 RcOf(lp, pi) == LET t == ColDot(lp, pi) IN [j \in 1..lp.n |-> RSub(lp.obj[j], t[j])]
 
 \* Set of reasons why s = [val, x, pi, slack, rc] is NOT an exact optimality certificate ({} = certificate).
+AllFin(seq) == \A k \in 1..Len(seq) : Fin(seq[k])
 OptimalCertDefects(lp, s) ==
   IF Len(s.x) # lp.n \/ Len(s.rc) # lp.n \/ Len(s.pi) # lp.m \/ Len(s.slack) # lp.m THEN {[c |-> "shape", k |-> 0]} ELSE
+  \* the library's "infinity" (1e150) handed out as a solution value is no certificate (and must not reach the arithmetic)
+  IF ~(AllFin(s.x) /\ AllFin(s.rc) /\ AllFin(s.pi) /\ AllFin(s.slack) /\ Fin(s.val)) THEN {[c |-> "infinite value in the solution", k |-> 0]} ELSE
   LET d   == Dir(lp)
       rcT == RcOf(lp, s.pi)
       act == [i \in 1..lp.m |-> Act(lp, s.x, i)]
@@ -112,6 +115,7 @@ OptimalPair(lp, x, pi) ==
 \* certificate iff all used sides are finite and U < L.
 FarkasDefects(lp, y) ==
   IF Len(y) # lp.m THEN {[c |-> "shape", k |-> 0]} ELSE
+  IF ~AllFin(y) THEN {[c |-> "infinite value in the certificate", k |-> 0]} ELSE
   LET t == ColDot(lp, y)
       badrow == {i \in 1..lp.m : (RSign(y[i]) > 0 /\ IsInf(RowLo(lp, i))) \/ (RSign(y[i]) < 0 /\ IsInf(RowUp(lp, i)))}
       badcol == {j \in 1..lp.n : (RSign(t[j]) > 0 /\ IsInf(lp.up[j])) \/ (RSign(t[j]) < 0 /\ IsInf(lp.lo[j]))}
